@@ -182,7 +182,7 @@ func r5hash(c *core.Ctx, rov *core.Fn, cc *ast.CaseClause) {
 		n, okRem, got := 0, true, ""
 		for _, st := range e.Stores(g, brk.Body, fieldNamed("remainMember")) {
 			n++
-			if st.RHS == nil || !lin.Of(st.G.Info, e.Resolve(st.Site, st.RHS)).Equal(want) && !lin.Of(st.G.Info, st.RHS).Equal(want) {
+			if !st.Plain() || !lin.Of(st.G.Info, e.Resolve(st.Site, st.RHS)).Equal(want) && !lin.Of(st.G.Info, st.RHS).Equal(want) {
 				okRem = false
 				got = c.Src(st.Stmt)
 			}
@@ -201,7 +201,7 @@ func r5hash(c *core.Ctx, rov *core.Fn, cc *ast.CaseClause) {
 	nReset, okReset := 0, false
 	var countReset bool
 	for _, st := range e.Stores(g, blk, fieldNamed("remainMember")) {
-		if st.RHS == nil {
+		if !st.Plain() {
 			continue
 		}
 		if v, ok := core.IntConst(st.G.Info, st.RHS); !ok || v != 0 {
@@ -240,7 +240,7 @@ func r5hash(c *core.Ctx, rov *core.Fn, cc *ast.CaseClause) {
 		c.Failf("R5.chunk", "hash/reset-when-complete", cc.Pos(), "remainMember is reset to 0 once all n pairs were read (`lastReadCount == n`), so that the next record starts with a type byte; the reset found is not guarded by that test")
 	}
 	for _, st := range e.Stores(g, blk, fieldNamed("lastReadCount")) {
-		if st.RHS == nil {
+		if !st.Plain() {
 			continue
 		}
 		if v, ok := core.IntConst(st.G.Info, st.RHS); ok && v == 0 && rootPos(st.Site, st.Stmt) < loop.Pos() {
